@@ -230,4 +230,24 @@ def listingVerdict (quiet : Bool) (lk rk : List String) (ents : List (String × 
 def listingOk (quiet : Bool) (lk rk : List String) (ents : List (String × Bool)) : Bool :=
   listingVerdict quiet lk rk ents == .ok
 
+
+/-! ### the listing law at EVERY instant (not only at quiescence)
+
+A listing (`smart_listdir_path` of a folder, `smart_info_path`, `smart_info_oid`) shows local objects plus the objects that
+exist on the remote side ACCORDING TO THE ENGINE'S CURRENT KNOWLEDGE.  For every reported row the harness looks the
+row's state entry up (by the reported remote id) and sends what the engine knows about its remote side at that instant. -/
+
+/-- one reported row: name, `is_synced`, "the engine knows the remote side is TRASHED/MISSING" -/
+structure Row where
+  name : String
+  synced : Bool
+  remoteKnownGone : Bool
+  deriving DecidableEq, Repr
+
+/-- the first ghost: a row reported as a not-downloaded remote file although the engine knows the remote object is gone -/
+def ghostOf (rows : List Row) : Option String :=
+  (rows.find? (fun r => !r.synced && r.remoteKnownGone)).map (·.name)
+
+def ghostOk (rows : List Row) : Bool := (ghostOf rows).isNone
+
 end CS.Spec.Smart
